@@ -38,7 +38,9 @@ fn gen_expr(r: &mut Rng, depth: usize, uniq: &mut usize) -> Expr {
     let n = r.below(3) + 1;
     for _ in 0..n {
         match r.below(if depth > 0 { 9 } else { 8 }) {
-            0 => parts.push(format!("{}", r.range(-50, 50))),
+            // (also values outside the 64-bit range: integers are 128 bits wide, and so are the literals that replace a block)
+            0 => if r.chance(25) { parts.push((*r.pick(&["0x7fffffffffffffff 1 +", "1 64 bsl", "0 0x8000000000000000 - 1 -", "3000000000 dup * dup *", "0xffffffffffffffff", "-9223372036854775808 1 -",
+                    "170141183460469231731687303715884105727", "1 100 bsl neg"])).to_string()) } else { parts.push(format!("{}", r.range(-50, 50))) },
             1 => parts.push(format!("{} {} {}", r.range(0, 20), r.range(1, 20), r.pick(&["+", "-", "*", "/", "rem"]))),
             2 => parts.push(format!("{} dup *", r.range(0, 12))),
             3 => parts.push(format!("{} {} swap", r.range(0, 9), r.range(0, 9))),
@@ -88,7 +90,27 @@ const CONTEXTS: &[(&str, &str, bool)] = &[
     ("#( : mf9", "; mf9 #)", false), ("#( true if", "then #)", false), ("#( false if", "then 6 #)", false), ("#( 2 0 do", "loop #)", false), ("#( [ 1", "] #)", false), ("[ #(", "#) ]", true),
 ];
 
+/// known finding [require-in-meta]: a file pulled in by `require` inside a meta block stays in the list of included
+/// files when the block closes and the words it defined are purged, so a later `require` of it is skipped
+fn require_in_meta(ctx: &mut Ctx) {
+    let dir = crate::lib_files(&ctx.scratch);
+    for (k, tail) in ["1", "libword1", "libword1 2 +"].iter().enumerate() {
+        let a = format!("#( require \"{}/lib1.xeh\" {} #) drop", dir, tail);
+        let b = format!("require \"{}/lib1.xeh\" libword1", dir);
+        let mut x = fresh();
+        let r1 = apply(&mut x, &Op::Eval(a.clone()));
+        let r2 = apply(&mut x, &Op::Eval(b.clone()));
+        // the program with the block replaced by its value: the later `require` loads the file
+        let mut y = fresh();
+        let _ = apply(&mut y, &Op::Eval("1 drop".to_string()));
+        let e2 = apply(&mut y, &Op::Eval(b.clone()));
+        ctx.check(r1 == "ok" && r2 == e2, || format!("[require-in-meta] C11 `{}` then `{}` (#{})", a, b, k), || format!("ok, then {}", e2), || format!("{}, then {}", r1, r2));
+        ctx.tag("kind:require-in-meta");
+    }
+}
+
 pub fn run(ctx: &mut Ctx) {
+    require_in_meta(ctx);
     let cfg = GenCfg { endless: false, malformed_percent: 0, max_depth: 2, max_stmts: 3, ..GenCfg::default() };
     let mut uniq = 0usize;
     for _ in 0..ctx.n {
@@ -134,6 +156,19 @@ pub fn run(ctx: &mut Ctx) {
                 let vals: Option<Vec<String>> = (0..n).rev().map(|i| probe.get_data(i).and_then(literal)).collect();
                 let vals = match vals { Some(v) => v, None => { ctx.tag("inline:no-literal-syntax"); continue; } };
                 ctx.tag(&format!("inline:results={}", n.min(4)));
+                // the values the block leaves are the values of e: the same expression run as an ordinary program (no meta
+                // block, nothing re-emitted as a literal) ends with the same items, in the opposite order
+                // (expressions without nested blocks: a nested block hands its own results over in reverse as well)
+                if e.consts.is_empty() && !e.text.contains("#(") {
+                    let mut plain = fresh();
+                    if let Some(Ok(())) = crate::guarded(|| plain.eval(&e.text)) {
+                        let m = plain.data_depth();
+                        let pv: Vec<String> = (0..m).map(|i| plain.get_data(i).map(canon::cell).unwrap_or_default()).collect();
+                        let bv: Vec<String> = (0..n).rev().map(|i| probe.get_data(i).map(canon::cell).unwrap_or_default()).collect();
+                        ctx.check(pv == bv, || format!("C11 values of `{}` vs the same expression run as a program", block), || format!("{:?}", pv), || format!("{:?}", bv));
+                        ctx.tag("inline:values-vs-plain-run");
+                    }
+                }
                 let const_vals: Vec<(String, String)> = e.consts.iter().filter_map(|c| probe.get_var_value(c).ok().and_then(literal).map(|v| (c.clone(), v))).collect();
                 let (pre, post, inner_meta) = *ctx.rng.pick(CONTEXTS);
                 ctx.tag(&format!("ctx:{}|{}", pre, post));
@@ -186,12 +221,17 @@ pub fn run(ctx: &mut Ctx) {
                     continue;
                 }
                 ctx.tag("kind:sealed");
-                let outer = format!("{} {} {} var sv", ctx.rng.range(0, 99), ctx.rng.range(0, 99), ctx.rng.range(0, 99));
-                let attack = *ctx.rng.pick(&["#( depth #)", "#( drop #)", "#( sv #)", "#( 5 ! sv #)", "#( swap #)", "#( dup #)", "#( 1 var mv #)", "#( .s 1 #)",
+                let mut outer = format!("{} {} {} var sv", ctx.rng.range(0, 99), ctx.rng.range(0, 99), ctx.rng.range(0, 99));
+                // the settings the native words consult (byte order, current input and offset, output) are variables of
+                // the surrounding program as well: a block neither sees nor changes them
+                let settings = ctx.rng.chance(25);
+                if settings { outer = format!("big |01 02 03 04| open-bitstr u8 drop {}", outer); ctx.tag("kind:sealed-settings"); }
+                let attack = if settings { *ctx.rng.pick(&["#( 258 u16! #)", "#( 258 16 uint! #)", "#( 1.5 f32! #)", "#( remain #)", "#( offset #)", "#( input #)", "#( big? #)", "#( u8 #)", "#( 8 bits #)",
+                    "#( |02| find #)", "#( little 1 #)", "#( 0 seek 1 #)", "#( |05| open-bitstr 1 #)", "#( close-bitstr 1 #)", "#( output-length #)", "#( -2 16 int! #)", "#( 2 bytes #)"]) } else { *ctx.rng.pick(&["#( depth #)", "#( drop #)", "#( sv #)", "#( 5 ! sv #)", "#( swap #)", "#( dup #)", "#( 1 var mv #)", "#( .s 1 #)",
                     "#( rot #)", "#( over #)", "#( I #)", "#( depth depth + #)", "#( #( depth #) #)", "#( [ ] length depth + #)", "#( : peek depth ; peek #)", "#( : thief drop ; thief #)",
                     // blocks that have SOME items of their own, but fewer than the word needs: the rest must not come from outside
                     "#( 2 over #)", "#( 2 swap #)", "#( 1 rot #)", "#( 1 2 rot #)", "#( 7 drop drop #)", "#( 1 over over #)", "#( 3 dup drop drop drop #)", "#( 1 2 + + #)",
-                    "#( 5 : two-over over over ; two-over #)", "#( 4 nil? swap #)", "#( 1 [ swap ] #)", "#( 9 depth over #)"]);
+                    "#( 5 : two-over over over ; two-over #)", "#( 4 nil? swap #)", "#( 1 [ swap ] #)", "#( 9 depth over #)"]) };
                 let ops = vec![Op::Eval(outer.clone()), Op::Eval(attack.to_string())];
                 correspondence(ctx, "C11", &ops);
                 let mut x = fresh();
